@@ -58,6 +58,7 @@ class Norm:
         self.wv = lid in (2301, 2302)
         self.dt_attrs = {b'created', b'si-expires'} if lid == 1301 else {b'timestamp'} if lid == 1701 else set()
         self.syncml = lid in (2001, 2101, 2201)
+        self.strict_lineends = False
 
     def same_name(self, a, b):
         a, b = local(a), local(b)
@@ -66,10 +67,13 @@ class Norm:
     def text_equiv(self, elem, a, b):
         if a == b:
             return True
-        # XML's own line-end normalisation on re-reading
-        if a.replace(b'\r\n', b'\n').replace(b'\r', b'\n') == b.replace(b'\r\n', b'\n').replace(b'\r', b'\n'):
-            return True
         le = local(elem)
+        # XML's own line-end normalisation on re-reading; when the right-hand side was NOT obtained by reading
+        # XML (C06: events decoded from the WBXML) only the documented vObject rule remains: in a SyncML <Data>
+        # a lone line feed is sent as CR LF
+        if not (self.strict_lineends and not (self.syncml and le == b'Data')):
+            if a.replace(b'\r\n', b'\n').replace(b'\r', b'\n') == b.replace(b'\r\n', b'\n').replace(b'\r', b'\n'):
+                return True
         if le in self.binary:
             try:
                 # (the event parser delivers the opaque bytes themselves; the XML carries them as base64)
